@@ -105,6 +105,8 @@ def kick_replay(model):
                     r = ['kick', 9, n2, it2, ax2, lb2, 2]
                     if r not in runs:
                         runs.append(r)
+    # whole-cell displacements of either sign for every stencil width (bit for bit; the 1-point scheme has no neighbour to hide behind)
+    runs += [['wholecell', 16, 1, it3, ax3, 5] for it3 in (1, 2, 3, 4) for ax3 in (0, 1)]
     return {'harness': 'sm_replay', 'runs': runs}
 
 
@@ -118,6 +120,9 @@ class UpdateSM(Contract):
     # concrete small grids for the bounded re-check (at most 3 iterations per loop): with symbolic sizes the unrolled
     # formula (~800 kB) is beyond the solvers' time limit and a refutation is found only by luck
     bounded_cases = [(lambda nx_, nb_: (lambda cx: [cx.f(PS_NX) == nx_, cx.f(PS_NY) == nx_, cx.f(PS_NB) == nb_]))(a_, b_) for a_, b_ in ((2, 1), (2, 2), (3, 1))]
+
+    def replay(self, o, model, pid):
+        return kick_replay(model)       # the table is observable only through apply(): same native runs as KickMap::apply
 
     def requires(self, cx):
         return [('valid', KM_valid(cx))]
